@@ -53,7 +53,11 @@ MANIFEST = dict(
           "sum_slice_spec / product_slice_spec / sum_spec (value and exact guard conditions), dot bilinear/symmetric over a ring, linspace_ends "
           "over a field and strict monotonicity over R, powspace_spec over R (ends, monotone), and over R: non-negativity, homogeneity, triangle inequality of "
           "norm_1/norm_inf/norm_2 (Cauchy-Schwarz) and norm_inf <= norm_2 <= norm_1; over IEEE binary64 (Flocq): dot_exact_float and "
-          "sum_slice_exact_float, elementwise_exact_float, norm_1_exact_float (integer-valued f64 data below 2^53: the float instance returns exactly the integer value of the definition). Tie: the same definitions run by vm_compute "
+          "sum_slice_exact_float, elementwise_exact_float, norm_1_exact_float (integer-valued f64 data below 2^53: the float instance returns exactly the integer value of the definition). "
+          "Complex and rational vectors (package cnorm): Vector<Complex<f64>>::norm_inf is the regenerated source function, panics exactly on the empty vector, and over C = R x R is the maximum of the moduli, "
+          "non-negative, definite, homogeneous, sub-additive; the generic norm_1 at the complex instance is (sum of the moduli, 0) with the same laws and norm_inf <= norm_1 <= n norm_inf, at Qc the sum of the "
+          "absolute values with the same laws; Cauchy-Schwarz for the (bilinear, non-conjugating) complex dot; exactness of both complex norms on Gaussian integers of integer modulus over binary64; "
+          "relative error gam 3 / gam (n+3) of the complex norms in the standard model with a rounded square root. Tie: the same definitions run by vm_compute "
           "against the implementation (Rat vs Qc exactly; f64/Complex bit-compared, libm-dependent norm_p/powspace by tolerance) "
           "on every length 0..64, every index range of the slice reductions for lengths <= 8 and random histories; a plain python "
           "list model and mpmath norms search for failing inputs."),
@@ -573,8 +577,22 @@ def finding_key(case, desc, items):
     INPUT of that operation has a component whose square (for the spacings: the difference b - a) is outside the
     normal f64 range.  Decided from the input, never from the failure; everything else stays a VIOLATION."""
     m = case.meta; kind = m.get("kind")
-    if case.elt != 'f64' or not isinstance(desc, str): return None
     import re as _re
+    if kind == "cnormlaws" and isinstance(desc, str):
+        # package cnorm: the complex twin of the same cause (Complex::abs = sqrt(re^2 + im^2), unscaled; recorded for C01 as
+        # cplx-sqmod-range).  The default generators do NOT draw such entries and KNOWN_FINDINGS.txt has no C15 line with this key:
+        # until the coordinator adds one, a hit is reported as a VIOLATION like any other.
+        t = _re.match(r"\[(cnorm_1|cnorm_inf)#(\d)\]", desc)
+        if t:
+            vec = cnormlaws_vectors(m)[int(t.group(2))]
+            def sq_out(z):
+                if z == 0 or not (math.isfinite(z.real) and math.isfinite(z.imag)): return False
+                try: y = z.real * z.real + z.imag * z.imag
+                except OverflowError: return True
+                return (not math.isfinite(y)) or y < F64_MIN_NORMAL or square_leaves_normal_range(z.real) or square_leaves_normal_range(z.imag)
+            return "cplx-sqmod-range" if any(sq_out(z) for z in vec) else None
+        return None
+    if case.elt != 'f64' or not isinstance(desc, str): return None
     t = _re.match(r"\[(norm_2|norm_p)#(\d)\]", desc)
     if t and kind in ("norms", "normlaws"):
         vec = m["v"] if kind == "norms" else normlaws_vectors(m)[int(t.group(2))]
